@@ -1,6 +1,6 @@
 (* Property C10 — sample result coding. Statements only; proofs live in Proofs/ and Gen/. *)
 From Coq Require Import List NArith ZArith Bool Permutation.
-From PV Require Import Lib.Table Lib.AmmoBytes Lib.AmmoLines Model.AmmoCommon Model.AmmoUri Model.AmmoUripost Model.AmmoRaw Model.AmmoJson Model.ShootAmmo Proofs.ShootAmmoProofs Model.Sample Model.GrpcStatus Model.Shoot Model.ShootEvents Proofs.SampleProofs Proofs.ShootProofs Proofs.ShootEventsProofs Gen.GrpcStatusGen Gen.GrpcStatus_bridge Gen.ConstGen Gen.Const_bridge.
+From PV Require Import Lib.Table Lib.AmmoBytes Lib.AmmoLines Model.AmmoCommon Model.AmmoUri Model.AmmoUripost Model.AmmoRaw Model.AmmoJson Model.ShootAmmo Proofs.ShootAmmoProofs Model.Sample Model.GrpcStatus Model.Shoot Model.ShootEvents Proofs.SampleProofs Proofs.ShootProofs Proofs.ShootEventsProofs Model.ReportQueue Model.ShootRun Proofs.ShootRunProofs Gen.GrpcStatusGen Gen.GrpcStatus_bridge Gen.ConstGen Gen.Const_bridge.
 Import ListNotations.
 Local Open Scope N_scope.
 
@@ -324,6 +324,132 @@ Example C10_ammo_file_example :
     mkSample [47;120] 202 0 2;
     mkSample ([108;105;115;116;32;97;108;108;32;111] ++ 124 :: [47;111]) 202 0 3 ].
 Proof. split; vm_compute; reflexivity. Qed.
+
+(* ---------------------------------------------------------------------------------------
+   Round 6.  (a) The scenario FILE declares a request with a name and, optionally, a tag.
+   --------------------------------------------------------------------------------------- *)
+
+(* HTTP scenario gun over declared steps: one sample per executed step, in order, labelled
+   <scenario>.<request NAME> (failing step: ...|__EMPTY__, proto 0, net 999) - the declared tag
+   of the request has no influence whatever it is; nothing is written after the hand-over. *)
+Theorem C10_scenario_step_name_http : forall name (steps : list (sdecl * hstep)),
+  hscen_shoot_decl name steps = hscen_decl_spec name steps /\
+  (forall f, hscen_shoot_decl name (retag f steps) = hscen_shoot_decl name steps) /\
+  length (hscen_shoot_decl name steps) = length (executed (fun x => hstep_stops (snd x)) steps) /\
+  (forall s, In s (hscen_shoot_decl name steps) ->
+     exists d o, In (d, o) steps /\
+       sm_tags s = match o with
+                   | HStepOk _ => name ++ dot :: sd_name d
+                   | HStepFail => name ++ dot :: sd_name d ++ 124 :: empty_tag
+                   end) /\
+  handoff_ok false (hscen_ev_decl name steps) = true /\
+  at_report (hscen_ev_decl name steps) = hscen_decl_spec name steps /\
+  at_end (hscen_ev_decl name steps) = hscen_decl_spec name steps.
+Proof.
+  intros name steps. split; [apply hscen_decl_shoot_spec|]. split; [intros f; apply hscen_decl_tag_ignored|].
+  split; [apply hscen_decl_labels|]. split; [apply hscen_decl_labels|]. apply hscen_decl_ev.
+Qed.
+Print Assumptions C10_scenario_step_name_http.
+
+(* gRPC scenario gun: labelled <scenario>.<call TAG>, whatever the call is named *)
+Theorem C10_scenario_step_tag_grpc : forall name (steps : list (sdecl * gstep)),
+  gscen_shoot_decl name steps = gscen_decl_spec name steps /\
+  (forall f, gscen_shoot_decl name (rename f steps) = gscen_shoot_decl name steps) /\
+  length (gscen_shoot_decl name steps) = length (executed (fun x => gstep_stops (snd x)) steps) /\
+  (forall s, In s (gscen_shoot_decl name steps) ->
+     exists d o, In (d, o) steps /\ sm_tags s = name ++ dot :: sd_tag d /\ sm_proto s = gstep_code o /\ sm_net s = 0) /\
+  handoff_ok false (gscen_ev_decl name steps) = true /\
+  at_report (gscen_ev_decl name steps) = gscen_decl_spec name steps /\
+  at_end (gscen_ev_decl name steps) = gscen_decl_spec name steps.
+Proof.
+  intros name steps. split; [apply gscen_decl_shoot_spec|]. split; [intros f; apply gscen_decl_name_ignored|].
+  split; [apply gscen_decl_labels|]. split; [apply gscen_decl_labels|]. apply gscen_decl_ev.
+Qed.
+Print Assumptions C10_scenario_step_tag_grpc.
+
+(* From the scenario file to the samples: for every registry of declared requests (any names,
+   any tags, duplicates: the last declaration of a name counts) and every list of steps
+   ("name", "name(cnt)", "sleep(ms)"): when the provider accepts the list, the shot's samples are
+   one per executed step of the steps the list MEANS (every named request as often as written,
+   sleeps are no steps), labelled with the request names; a list that starts with a request
+   fired at least once and names declared requests only is accepted. *)
+Theorem C10_scenario_file_samples : forall name (reg : list (sdecl * hstep)) items,
+  (forall samples, hscen_file_shoot name reg items = Some samples -> samples = hscen_file_spec name reg items) /\
+  (forall tr, hscen_file_ev name reg items = Some tr ->
+     handoff_ok false tr = true /\ at_report tr = hscen_file_spec name reg items /\ at_end tr = hscen_file_spec name reg items) /\
+  (forall nm cnt r, items = SIReq nm (S cnt) :: r -> forallb (item_known reg) items = true ->
+     hscen_file_shoot name reg items = Some (hscen_file_spec name reg items)).
+Proof.
+  intros name reg items. split; [intros; apply hscen_file_shoot_spec; assumption|].
+  split; [intros; apply hscen_file_ev_spec; assumption|].
+  intros nm cnt r -> Hk. unfold hscen_file_shoot. rewrite scen_steps_accepts by exact Hk.
+  cbn [option_map]. f_equal. apply hscen_decl_shoot_spec.
+Qed.
+Print Assumptions C10_scenario_file_samples.
+
+(* two requests sharing a tag stay two labels; "b(2)" is two steps; the sleep is none;
+   the second declaration of "a" is the one meant *)
+Example C10_scenario_file_example :
+  let reg := [ (mkDecl [97] [116], HStepOk 500); (mkDecl [98] [116], HStepOk 201); (mkDecl [97] [120], HStepOk 200) ] in
+  hscen_file_shoot [115] reg [SIReq [97] 1; SISleep; SIReq [98] 2] =
+    Some [mkSample [115;46;97] 200 0 0; mkSample [115;46;98] 201 0 0; mkSample [115;46;98] 201 0 0] /\
+  hscen_file_shoot [115] reg [SISleep; SIReq [97] 1] = None /\
+  hscen_file_shoot [115] reg [SIReq [99] 1] = None.
+Proof. vm_compute. repeat split. Qed.
+
+(* ---------------------------------------------------------------------------------------
+   Round 6.  (b) "Each fired request produces exactly one sample" - in the results file.
+   The standard aggregator (phout) takes a reported sample through a bounded channel to its
+   writer (Model/ReportQueue.v, shared with C04; Gen/PhoutReport_bridge.v: Report re-read from
+   phout.go is the blocking send).  A run: any number of instances of any gun kinds shoot,
+   their Reports and the writer's receives are interleaved in any order (a history of completed
+   operations), the queue has any capacity, the writer may be as far behind as it likes.
+   Then the lines written (after the final drain) are, up to order, exactly the samples the
+   property asks for - one per fired request / executed step, with its tag and codes -, their
+   number is the number of fired requests, and nothing is thrown away. *)
+Theorem C10_one_line_per_request : forall cap (shots : list shot) (evs : list (qev sample)) lines,
+  Permutation (sends evs) (flat_map shot_reports shots) ->
+  run_lines qblocking cap evs = Some lines ->
+  Permutation lines (flat_map shot_spec shots) /\
+  length lines = list_sum (map shot_requests shots) /\
+  run_lost qblocking cap evs = Some [].
+Proof. exact run_one_line_per_request. Qed.
+Print Assumptions C10_one_line_per_request.
+
+(* ... and such histories exist for every list of reports and every capacity (no deadlock):
+   the one in which the writer moves only when a reporter is stuck *)
+Theorem C10_reports_always_complete : forall cap (reports : list sample),
+  exists s', qrun qblocking cap qinit (lazy_history qblocking cap qinit reports) = Some s' /\
+             sends (lazy_history qblocking cap qinit reports) = reports.
+Proof.
+  intros cap reports. destruct (lazy_history_runs cap reports qinit (Nat.le_0_l cap)) as [s' [H1 [H2 _]]].
+  exists s'. split; assumption.
+Qed.
+Print Assumptions C10_reports_always_complete.
+
+(* the statement is false of a Report that gives up when the channel is full *)
+Theorem C10_dropping_report_refuted :
+  let cfg := {| at_enabled := false; at_depth := 2; at_notagonly := true |} in
+  let shots := [ShHttp cfg false 1 [97] [47] (XResp 200 BodyOk); ShHttp cfg false 2 [98] [47] (XResp 200 BodyOk)] in
+  let evs := lazy_history qdropping 1 qinit (flat_map shot_reports shots) in
+  sends evs = flat_map shot_reports shots /\
+  run_lines qdropping 1 evs = Some [mkSample [97] 200 0 1] /\
+  run_lost qdropping 1 evs = Some [mkSample [98] 200 0 2].
+Proof. exact dropping_run_loses_a_request. Qed.
+Print Assumptions C10_dropping_report_refuted.
+
+(* non-vacuity: three instances (HTTP, HTTP scenario failing at its second step, gRPC), queue of
+   one sample, the writer behind: four lines *)
+Example C10_run_example :
+  let cfg := {| at_enabled := false; at_depth := 2; at_notagonly := true |} in
+  let shots := [ShHttp cfg false 1 [97] [47] (XResp 200 BodyOk);
+                ShHScen [115] [(mkDecl [97] [116], HStepOk 200); (mkDecl [98] [], HStepFail); (mkDecl [99] [], HStepOk 200)];
+                ShGrpc [103] (GCalled 0)] in
+  let evs := lazy_history qblocking 1 qinit (flat_map shot_reports shots) in
+  sends evs = flat_map shot_reports shots /\
+  option_map (@length sample) (run_lines qblocking 1 evs) = Some 4%nat /\
+  list_sum (map shot_requests shots) = 4%nat.
+Proof. vm_compute. repeat split. Qed.
 
 (* non-vacuity *)
 Example C10_shoot_example :
